@@ -23,6 +23,8 @@ type Inst struct {
 	T   int   `json:"t"`
 	Eph []int `json:"eph"`
 	Bad bool  `json:"bad"`
+	// Corrupt selects how a Bad v2 instance is damaged: "" / "proof", "leaf", "leafbig", "prooflen"
+	Corrupt string `json:"corrupt,omitempty"`
 }
 
 // An Exec drives one real node through one history and records it.
@@ -950,6 +952,15 @@ func corruptV2(txn *types.V2Transaction, how string) bool {
 	return false
 }
 
+func (x *Exec) treeDist(a, b int) int {
+	pa, pb := x.S.Tree.PathTo(a+x.S.Warm), x.S.Tree.PathTo(b+x.S.Warm)
+	k := 0
+	for k < len(pa) && k < len(pb) && pa[k] == pb[k] {
+		k++
+	}
+	return len(pa) - k + len(pb) - k
+}
+
 func (x *Exec) index(abs int) types.ChainIndex {
 	if abs <= 0 || abs > x.S.NumAbs() {
 		var id types.BlockID
@@ -1000,7 +1011,11 @@ func (x *Exec) AddSet(kind string, basis int, set []Inst) string {
 			}
 			txn, eph := p.At(l)
 			if in.Bad {
-				corruptV2(&txn, "proof")
+				how := in.Corrupt
+				if how == "" {
+					how = "proof"
+				}
+				corruptV2(&txn, how)
 			}
 			txns = append(txns, txn)
 			evset = append(evset, map[string]any{"t": in.T, "eph": x.S.leaves(eph), "bad": in.Bad})
@@ -1027,6 +1042,24 @@ func (x *Exec) AddSet(kind string, basis int, set []Inst) string {
 		if panicked != "" {
 			detail = panicked
 			x.mismatch("audit:c14:addset:v2:panic", "AddV2PoolTransactions(%v at basis %d) panicked: %s", names, basis, panicked)
+		}
+		// C13: an unknown basis, a basis beyond the supported distance and an invalid proof are rejected with
+		// an error -- also when every transaction of the set is already pooled (ids do not cover proofs)
+		if reply == "ok" || reply == "known" {
+			why := ""
+			for _, in := range set {
+				if in.Bad {
+					why = "corrupt-proof"
+				}
+			}
+			if basis < 1 || basis > x.S.NumAbs() {
+				why = "unknown-basis"
+			} else if d := x.treeDist(basis, x.Tip); d > 144 {
+				why = "basis-too-far"
+			}
+			if why != "" {
+				x.mismatch("audit:c13:addset:hostile-accepted:"+why, "AddV2PoolTransactions(%v, basis %d, tip %d) answered %q although the submission has an %s (pool v2 %v): the basis and the proofs were not examined", names, basis, x.Tip, reply, why, x.p2)
+			}
 		}
 		if err != nil && basis != x.Tip && basis >= 1 && strings.Contains(detail, "references element that does not exist in our chain") {
 			hasEph := false
